@@ -14,7 +14,8 @@ Inductive c02_case :=
 | CRows (c : c01_case)
 | CPlan (g : graph) (p : list stmt) (o : list ostmt)
 | CLoad (p : list stmt) (steps : list nat) (outs : outmap)    (* inspect.PipelineSteps / PipelineStepOutputs as observed *)
-| CLoadPlan (p : list stmt) (steps : list nat) (outs : outmap). (* the same tables for IndexStartOptimize(p), as the compiler computes them *)
+| CLoadPlan (p : list stmt) (steps : list nat) (outs : outmap)  (* the same tables for IndexStartOptimize(p), as the compiler computes them *)
+| CLoadX (p : list xstmt) (steps : list nat) (outs : outmap).    (* programs with aggregate / set / increment / jump / mark / null moves *)
 
 (* ---------- structural equality of statements ---------- *)
 Fixpoint list_eqb {X} (e : X -> X -> bool) (a b : list X) : bool :=
@@ -36,7 +37,8 @@ Fixpoint hexpr_eqb (a b : hexpr) : bool :=
 Definition stmt_eqb (a b : stmt) : bool :=
   match a, b with
   | SV x, SV y | SE x, SE y | SIn x, SIn y | SOut x, SOut y | SBoth x, SBoth y | SInE x, SInE y | SOutE x, SOutE y
-  | SBothE x, SBothE y | SHasLabel x, SHasLabel y | SHasId x, SHasId y | SHasKey x, SHasKey y | SSelect x, SSelect y
+  | SBothE x, SBothE y | SInNull x, SInNull y | SOutNull x, SOutNull y | SInENull x, SInENull y | SOutENull x, SOutENull y
+  | SHasLabel x, SHasLabel y | SHasId x, SHasId y | SHasKey x, SHasKey y | SSelect x, SSelect y
   | SFields x, SFields y | SDistinct x, SDistinct y => strs_eqb x y
   | SHas x, SHas y => hexpr_eqb x y
   | SAs x, SAs y | SUnwind x, SUnwind y => String.eqb x y
@@ -79,6 +81,10 @@ Definition load_matches (p : list stmt) (steps : list nat) (outs : outmap) : boo
   list_eqb Nat.eqb (step_ids p) steps &&
   forallb (fun k => opt_strs_eqb (get_out k (outputs p)) (get_out k outs)) (seq 0 (S (S (List.length p)))) &&
   forallb (fun x => Nat.leb (fst x) (S (List.length p))) outs.
+Definition load_x_matches (p : list xstmt) (steps : list nat) (outs : outmap) : bool :=
+  list_eqb Nat.eqb (x_step_ids p) steps &&
+  forallb (fun k => opt_strs_eqb (get_out k (x_outputs p)) (get_out k outs)) (seq 0 (S (S (List.length p)))) &&
+  forallb (fun x => Nat.leb (fst x) (S (List.length p))) outs.
 Definition load_plan_matches (p : list stmt) (steps : list nat) (outs : outmap) : bool :=
   let o := optimize p in
   list_eqb Nat.eqb (plan_step_ids o) steps &&
@@ -91,6 +97,7 @@ Definition case_mismatch (c : c02_case) : bool :=
   | CPlan g p o => negb (plan_matches p o)
   | CLoad p st o => negb (load_matches p st o)
   | CLoadPlan p st o => negb (load_plan_matches p st o)
+  | CLoadX p st o => negb (load_x_matches p st o)
   end.
 Definition case_violation (c : c02_case) : bool :=
   match c with
@@ -98,6 +105,7 @@ Definition case_violation (c : c02_case) : bool :=
   | CPlan g p o => negb (plan_sound g p o)
   | CLoad p st o => negb (reads_covered p o)
   | CLoadPlan p st o => negb (plan_reads_covered (optimize p) o)
+  | CLoadX p st o => negb (x_reads_covered p o)
   end.
 
 Definition mismatches (cs : list c02_case) := idx_where case_mismatch 0 cs.
@@ -110,4 +118,5 @@ Definition explain (c : c02_case) :=
   | CLoad p st o => ((Rejected, Exact), map (fun x => OLookup (snd x)) (outputs p), Rows (map (fun k => JNum (Z.of_nat k # 1)) (step_ids p)))
   | CLoadPlan p st o => ((Rejected, Exact), optimize p ++ map (fun x => OLookup (snd x)) (plan_outputs (optimize p)),
                          Rows (map (fun k => JNum (Z.of_nat k # 1)) (plan_step_ids (optimize p))))
+  | CLoadX p st o => ((Rejected, Exact), map (fun x => OLookup (snd x)) (x_outputs p), Rows (map (fun k => JNum (Z.of_nat k # 1)) (x_step_ids p)))
   end.
